@@ -235,7 +235,12 @@ pub fn run(report: &Report, thorough: bool) -> Evidence {
     let emoji = emoji_set();
     let judge = Judge { dict: &dict, emoji: &emoji, report, prop: "C15" };
     let samples = Samples::new(8);
-    let (words, space) = select_words(&dict, thorough);
+    let (sub_words, sub_space) = select_words(&dict, false);
+    let sub_set: HashSet<&String> = sub_words.iter().collect();
+    // both tiers type EVERY word of the dictionary; the quick tier does so under one
+    // configuration and uses the enumerated sub-space for the other three
+    let (words, _) = select_words(&dict, true);
+    let space = if thorough { "all words of dictionary.json under all 16 configurations".to_string() } else { format!("all words of dictionary.json under configuration 1; {} under configurations 2-4", sub_space) };
     // tries per (first two characters) for load balancing
     let mut groups: BTreeMap<String, Trie> = BTreeMap::new();
     for w in &words {
@@ -254,8 +259,15 @@ pub fn run(report: &Report, thorough: bool) -> Evidence {
         (0..16).map(|b| (b & 1 != 0, b & 2 != 0, b & 4 != 0, b & 8 != 0)).collect()
     } else {
         // (kar, smart, english, ansi)
-        vec![(false, true, false, false), (true, true, true, false), (false, false, true, true), (true, false, false, true)]
+        vec![(true, true, true, false), (false, true, false, false), (false, false, true, true), (true, false, false, true)]
     };
+    // sub-space tries for configurations 2.. of the quick tier
+    let mut sub_groups: BTreeMap<String, Trie> = BTreeMap::new();
+    for w in &sub_words {
+        let key: String = w.chars().take(1).collect();
+        sub_groups.entry(key).or_default().insert(w);
+    }
+    let _ = &sub_set;
     let lists = AtomicU64::new(0);
     let nontrivial = AtomicU64::new(0);
     let untypeable = AtomicU64::new(0);
@@ -270,6 +282,31 @@ pub fn run(report: &Report, thorough: bool) -> Evidence {
         }
     }
     let tries: BTreeMap<String, &Trie> = work.iter().map(|(k, t)| (k.clone(), *t)).collect();
+    let mut sub_work: Vec<(String, &Trie)> = vec![];
+    for (_k, t) in &sub_groups {
+        for (c1, t1) in &t.children {
+            sub_work.push((c1.to_string(), t1));
+        }
+    }
+    let sub_tries: BTreeMap<String, &Trie> = sub_work.iter().map(|(k, t)| (k.clone(), *t)).collect();
+    if !thorough {
+        // rebuild the item list: configuration 0 over everything, the others over the sub-space
+        items.clear();
+        for (c1, t1) in &work {
+            items.push((0, c1.clone(), None));
+            for c2 in t1.children.keys() {
+                items.push((0, c1.clone(), Some(*c2)));
+            }
+        }
+        for ci in 1..cfgs.len() {
+            for (c1, t1) in &sub_work {
+                items.push((ci, c1.clone(), None));
+                for c2 in t1.children.keys() {
+                    items.push((ci, c1.clone(), Some(*c2)));
+                }
+            }
+        }
+    }
     par_for(
         items.len(),
         4,
@@ -290,7 +327,7 @@ pub fn run(report: &Report, thorough: bool) -> Evidence {
                 c
             });
             let mut w = Walker { ctx, inv: &inv, judge: &judge, samples: &samples, lists: 0, nontrivial: 0, untypeable: 0, path: vec![] };
-            let t1 = tries[c1];
+            let t1 = if thorough || *ci == 0 { tries[c1] } else { sub_tries[c1] };
             let c1c = c1.chars().next().unwrap();
             // type the first character
             let mut top = Trie::default();
